@@ -74,7 +74,9 @@ func vC02Loc(fam int, kinds int, embed bool) {
 		}
 	} else {
 		vCover("split")
-		vAssert("split-only-grows", len(bs) > len(as))
+		// overlapping/duplicate parts may be absorbed when a split part is re-joined (C06 allows that);
+		// with pairwise disjoint parts the arity can only grow
+		vAssert("split-only-grows", vImplies(vDisjoint(as), len(bs) > len(as)))
 		// outer ends keep their markers (reading order: first atom / last atom)
 		f0, f1 := as[0], bs[0]
 		l0, l1 := as[len(as)-1], bs[len(bs)-1]
@@ -143,6 +145,10 @@ func VH_C02_insert_api() {
 	if G > 0 {
 		gloc = vGenAtom("gf", G, 1)
 		gff = gff.Insert(Feature{"cds", gloc, Props{[]string{"tag", "g"}}})
+	} else {
+		// an empty guest can still carry a feature (a site), e.g. what Delete leaves of a fully deleted record
+		gloc = Between(0)
+		gff = gff.Insert(Feature{"cds", gloc, Props{[]string{"tag", "g"}}})
 	}
 	host, guest := New("hi", hff, hdata), New("gi", gff, gdata)
 	i := vChoice("i", L+1)
@@ -195,10 +201,14 @@ func VH_C02_insert_api() {
 		_, ns := vFindTagged(off, "src")
 		vAssert("source-present-once", ns == 1)
 	}
-	if G > 0 {
+	{
 		f, n := vFindTagged(off, "g")
 		vAssert("guest-feature-present-once", n == 1)
-		if n == 1 {
+		if n == 1 && G == 0 {
+			bs := vAtoms(f.Loc)
+			vAssert("guest-site-placed", vAnd(len(bs) == 1, vAnd(bs[0].kind == vkBetween, vInRange(bs, L+G))))
+		}
+		if n == 1 && G > 0 {
 			as, bs := vAtoms(gloc), vAtoms(f.Loc)
 			vAssert("guest-feature-residues", vCovS(bs, x, false) == vAnd(x >= i, vCovS(as, x-i, false)))
 			vAssert("guest-feature-key", f.Key == "cds")
